@@ -1,8 +1,7 @@
 (* C18 -- tuples and anonymous components are desugared completely and
    faithfully.  Property theorems only: each is closed by [exact] of a lemma of
-   Proofs.DesugarProofs, followed by Print Assumptions.  Statements that are not
-   proved are kept visible as [Definition ..._full_statement : Prop] (reported
-   under coverage["open_statements"], never counted as obligations). *)
+   Proofs.Desugar{Proofs,Metas,Total,Refine}, followed by Print Assumptions.  All
+   statements of DESIGN §4 C18 are theorems here; nothing is left open. *)
 From Coq Require Import ZArith NArith List Bool String.
 Require Import Model.Ast Model.Desugar Spec.ExpandSpec Proofs.DesugarProofs Proofs.DesugarMetas Proofs.DesugarTotal Proofs.DesugarRefine.
 Import ListNotations.
